@@ -13,22 +13,22 @@ Theorem C13_itermin : forall P R openp load S icb pred r pg l s,
 Proof. exact iiter_min_flat. Qed.
 Print Assumptions C13_itermin.
 
-Theorem C13_scan_min : forall pg U npages S root from (cb : record -> S -> flow * S) l s,
-  index_rows pg U npages root = (l, None) -> mono (search from) l ->
-  index_scan_min pg U npages S root from cb s = run_cb cb (drop_lt (search from) l) s.
+Theorem C13_scan_min : forall pg op npages S root from (cb : record -> S -> flow * S) l s,
+  index_rows pg op npages root = (l, None) -> mono (search from) l ->
+  index_scan_min pg op npages S root from cb s = run_cb cb (drop_lt (search from) l) s.
 Proof. exact index_scan_min_rows. Qed.
 Print Assumptions C13_scan_min.
 
-Theorem C13_scan_range : forall pg U npages S root from to (cb : record -> S -> flow * S) l s,
-  index_rows pg U npages root = (l, None) -> mono (search from) l ->
-  outcome (index_scan_range pg U npages S root from to cb s)
+Theorem C13_scan_range : forall pg op npages S root from to (cb : record -> S -> flow * S) l s,
+  index_rows pg op npages root = (l, None) -> mono (search from) l ->
+  outcome (index_scan_range pg op npages S root from to cb s)
   = outcome (run_cb cb (take_while (fun r => negb (search to r)) (drop_lt (search from) l)) s).
 Proof. exact index_scan_range_rows. Qed.
 Print Assumptions C13_scan_range.
 
-Theorem C13_scan_eq : forall pg U npages S root k (cb : record -> S -> flow * S) l s,
-  index_rows pg U npages root = (l, None) -> mono (search k) l ->
-  outcome (index_scan_eq pg U npages S root k cb s)
+Theorem C13_scan_eq : forall pg op npages S root k (cb : record -> S -> flow * S) l s,
+  index_rows pg op npages root = (l, None) -> mono (search k) l ->
+  outcome (index_scan_eq pg op npages S root k cb s)
   = outcome (run_cb cb (take_while (equals k) (drop_lt (search k) l)) s).
 Proof. exact index_scan_eq_rows. Qed.
 Print Assumptions C13_scan_eq.
@@ -48,8 +48,8 @@ Theorem C13_eq_is_filter : forall (A : Type) (ge eq : A -> bool) l, three_runs A
 Proof. exact eq_segment_is_filter. Qed.
 Print Assumptions C13_eq_is_filter.
 
-Theorem C13_scan_min_collect : forall pg U npages root from l,
-  index_rows pg U npages root = (l, None) -> mono (search from) l ->
-  index_scan_min pg U npages _ root from (stop_after None) [] = (Continue, rev (drop_lt (search from) l)).
+Theorem C13_scan_min_collect : forall pg op npages root from l,
+  index_rows pg op npages root = (l, None) -> mono (search from) l ->
+  index_scan_min pg op npages _ root from (stop_after None) [] = (Continue, rev (drop_lt (search from) l)).
 Proof. exact index_scan_min_all. Qed.
 Print Assumptions C13_scan_min_collect.
